@@ -39,27 +39,32 @@ Inductive call :=
    all counts are still evaluated on the real columns *)
 Definition en (A : nat) (s : list nat) : dna := map (onehot A) s.
 
-(* a list of digits written as the decimal numeral 1d1d2...dk (literals parse much faster) *)
-Fixpoint dg_fuel (fuel : nat) (z : Z) (acc : list nat) : list nat :=
+(* a list of digits (each < 16) written as the hexadecimal numeral 0x1d1d2...dk: decoding walks
+   the bits of the binary positive, four at a time (literals parse and decode in linear time) *)
+Fixpoint dg_fuel (fuel : nat) (p : positive) (acc : list nat) : list nat :=
   match fuel with
   | O => acc
-  | S f => if (z <? 10)%Z then acc
-           else dg_fuel f (z / 10)%Z (Z.to_nat (z mod 10) :: acc)
+  | S f => match p with
+           | xH => acc
+           | _ => dg_fuel f (Pos.div2 (Pos.div2 (Pos.div2 (Pos.div2 p))))
+                          (N.to_nat (Pos.land p 15) :: acc)
+           end
   end.
-Definition dg (z : Z) : list nat := dg_fuel (S (Z.to_nat (Z.log2 z))) z [].
+Definition dg (z : Z) : list nat :=
+  match z with Zpos p => dg_fuel (Pos.size_nat p) p [] | _ => [] end.
 Definition dn (A : nat) (z : Z) : dna := en A (dg z).
 (* a whole batch of B one-hot rows of length L >= 1 as one numeral of B*L digits; a result
    [k rows per group]; a family of draws sig[example][shuffle][character], every draw terminated
-   by the digit 9 *)
+   by the digit 15 *)
 Definition dnb (A L : nat) (z : Z) : batch := map (en A) (chunks L (dg z)).
 Definition obn (A L k : nat) (z : Z) : list batch := chunks k (dnb A L z).
-Fixpoint split9 (l cur : list nat) : list (list nat) :=
+Fixpoint splitf (l cur : list nat) : list (list nat) :=
   match l with
   | [] => []
-  | d :: r => if d =? 9 then rev cur :: split9 r [] else split9 r (d :: cur)
+  | d :: r => if d =? 15 then rev cur :: splitf r [] else splitf r (d :: cur)
   end.
 Definition sgn (A n : nat) (z : Z) : list (list (list (list nat))) :=
-  chunks n (chunks A (split9 (dg z) [])).
+  chunks n (chunks A (splitf (dg z) [])).
 
 (* shuffle: [sample][example]; dinucleotide_shuffle: [example][sample] *)
 Definition outcome := res (list batch).
@@ -76,13 +81,20 @@ Definition pairs {U} (l : list U) : list (U * U) :=
 Definition pair_eqb (p q : col * col) : bool :=
   col_eqb (fst p) (fst q) && col_eqb (snd p) (snd q).
 
+(* first occurrences only (the counts below are compared once per distinct value) *)
+Fixpoint dedup {U} (eqb : U -> U -> bool) (l : list U) (seen : list U) : list U :=
+  match l with
+  | [] => rev seen
+  | x :: r => if existsb (eqb x) seen then dedup eqb r seen else dedup eqb r (x :: seen)
+  end.
+
 (* every character occurs equally often in l1 and l2 (characters absent from both: 0 = 0) *)
 Definition same_counts (l1 l2 : dna) : bool :=
-  forallb (fun c => countf (col_eqb c) l1 =? countf (col_eqb c) l2) (l1 ++ l2).
+  forallb (fun c => countf (col_eqb c) l1 =? countf (col_eqb c) l2) (dedup col_eqb (l1 ++ l2) []).
 
 Definition same_pair_counts (l1 l2 : dna) : bool :=
   forallb (fun p => countf (pair_eqb p) (pairs l1) =? countf (pair_eqb p) (pairs l2))
-          (pairs l1 ++ pairs l2).
+          (dedup pair_eqb (pairs l1 ++ pairs l2) []).
 
 Definition same_ends (l1 l2 : dna) : bool :=
   col_eqb (hd dcol l1) (hd dcol l2) && col_eqb (last l1 dcol) (last l2 dcol).
